@@ -76,7 +76,112 @@ theorem encodeData_posEv {o : Oracle} {s s' : St} {site : Nat} {il ff : Bool} {r
     simp only [Pos.mk.injEq]
     exact ⟨f.2.1, hlp, hlf, hn⟩
   · unfold encEv Ev.ok St.pos
-    simp only [reqOf]
     exact ⟨rfl, rfl, rfl, rfl, hsite, q2, hI.lp_le⟩
+
+theorem updateSizeHint_pos (s : St) (n : Nat) : (updateSizeHint s n).pos = s.pos := by
+  unfold updateSizeHint St.pos
+  split <;> rfl
+
+theorem markAfterEncode_pos (s : St) (a b : Bool) : (markAfterEncode s a b).pos = s.pos := by
+  unfold markAfterEncode St.pos
+  cases a <;> cases b <;> rfl
+
+theorem checkFlushComplete_pos (s : St) : (checkFlushComplete s).pos = s.pos := by
+  unfold checkFlushComplete St.pos
+  split <;> rfl
+
+theorem mdEnter_pos (s : St) (n : Nat) : (mdEnter s n).pos = s.pos := by
+  unfold mdEnter St.pos
+  split <;> rfl
+
+theorem fastStorage_pos (s : St) (ip : Bool) (n : Nat) : (fastStorage s ip n).pos = s.pos := by
+  unfold fastStorage growStorage St.pos
+  split
+  · rfl
+  · split <;> rfl
+
+theorem fastEncode_io (s : St) (io : Io) (ans : Ans) (req : Req) (bs : Nat) (ip il ff : Bool) :
+    (fastEncode s io ans req bs ip il ff).1.pos = { s.pos with k := s.pos.k + 1 }
+    ∧ (fastEncode s io ans req bs ip il ff).2.reqs = io.reqs ++ [req]
+    ∧ (fastEncode s io ans req bs ip il ff).2.input = io.input.drop bs
+    ∧ (fastEncode s io ans req bs ip il ff).2.availIn = io.availIn - bs := by
+  unfold fastEncode St.pos
+  cases ip <;> simp
+
+set_option maxRecDepth 4000 in
+/-- **positions, requests and input consumption of one atomic step** -/
+theorem step_pos {o : Oracle} {op : Nat} {s s' : St} {io io' : Io} {e : Ev}
+    (h : Step o op (s, io) e (s', io')) :
+    s'.pos = e.step s.pos ∧ e.ok s.pos ∧ io'.reqs = io.reqs ++ e.req.toList
+    ∧ io'.input = io.input.drop e.used ∧ e.used ≤ io.input.length := by
+  cases h with
+  | init hf =>
+    obtain ⟨p, rfl⟩ := hf
+    refine ⟨?_, trivial, by simp [Ev.req], by simp [Ev.used], by simp [Ev.used]⟩
+    simp [St.pos, ensureInitialized, St.new, Ev.step]
+  | copy hI hw hst hrm hc hn h =>
+    have hlen : (io.input.take (copyN s io)).length = copyN s io := by rw [List.length_take]; omega
+    have hnfl : s.streamState ≠ .flushRequested := by rw [hst]; simp
+    obtain ⟨_, i2, _, _⟩ := inv_copy hI hnfl (by rw [hlen]; exact Nat.min_le_left _ _)
+      (by rw [hlen]; exact Nat.min_le_right _ _) hw h
+    obtain ⟨_, _, _, _, _, c6, c7, _, _, _, _, _, _, _, _, c16⟩ := copy_fields hI.init h
+    refine ⟨?_, trivial, by simp [Ev.req], by simp [Ev.used, hlen], by simp [Ev.used, hlen]; omega⟩
+    unfold St.pos Ev.step
+    simp only [Pos.mk.injEq]
+    exact ⟨i2, c7, c6, c16⟩
+  | pad hI hc hz h =>
+    obtain ⟨f, a1, a2, _, _, _, _, _, a9⟩ := pad_frame h
+    rw [St.frame_eq_iff] at f
+    refine ⟨?_, trivial, by simp [Ev.req], by simp [Ev.used], by simp [Ev.used]⟩
+    unfold St.pos Ev.step
+    simp only [Pos.mk.injEq]
+    exact ⟨f.2.1, a2, a1, a9⟩
+  | push hI hc h =>
+    obtain ⟨f, a1, a2, _, _, _, a7, a8, _, a10⟩ := push_frame h
+    rw [St.frame_eq_iff] at f
+    refine ⟨?_, trivial, by simp [Ev.req, a10], by simp [Ev.used, a8], by simp [Ev.used]⟩
+    unfold St.pos Ev.step
+    simp only [Pos.mk.injEq]
+    exact ⟨f.2.1, a2, a1, a7⟩
+  | encSlow hI hop hrm hnc hnp hpend hst hgo h =>
+    have hI2 := inv_updateSizeHint hI io.availIn
+    obtain ⟨p1, p2⟩ := encodeData_posEv hI2 (by omega : (0 : Nat) ≠ 2) h
+    rw [updateSizeHint_pos] at p1 p2
+    have hreq := (encodeData_frame h).2.1
+    refine ⟨by rw [markAfterEncode_pos]; exact p1, p2, ?_, by simp [Ev.used, encEv], by simp [Ev.used, encEv]⟩
+    simp [encEv, Ev.req, hreq]
+  | cfc hI hop hrm hnp hfl =>
+    refine ⟨by rw [checkFlushComplete_pos]; rfl, trivial, by simp [Ev.req], by simp [Ev.used], by simp [Ev.used]⟩
+  | fastFlush hI hfm hrm hnp hpend hst hop1 hz =>
+    exact ⟨rfl, trivial, by simp [Ev.req], by simp [Ev.used], by simp [Ev.used]⟩
+  | fastBlock hI hfm hop hrm hnp hpend hst hgo hnf hcap hin hfit =>
+    obtain ⟨e1, e2, e3, _⟩ := fastEncode_io (fastS1 s io) io (o s.nEnc (fastReq op s io)) (fastReq op s io) (fastBs s io) (fastInplace s io)
+      (fastReq op s io).isLast (fastReq op s io).forceFlush
+    have hs1 : (fastS1 s io).pos = s.pos := fastStorage_pos _ _ _
+    rw [hs1] at e1
+    refine ⟨e1, ⟨rfl, rfl, rfl⟩, by simp [Ev.req]; exact e2, ?_, ?_⟩
+    · simp only [Ev.used]; exact e3
+    · simp only [Ev.used]
+      have : (fastReq op s io).lo = fastBs s io := rfl
+      rw [this]; omega
+  | mdEnter hI hop hentry =>
+    refine ⟨by rw [mdEnter_pos, updateSizeHint_pos]; rfl, trivial, by simp [Ev.req], by simp [Ev.used], by simp [Ev.used]⟩
+  | mdEnc hM hop hpend hne h =>
+    obtain ⟨p1, p2⟩ := encodeData_posEv hM.inv (by omega : (1 : Nat) ≠ 2) h
+    have hreq := (encodeData_frame h).2.1
+    refine ⟨p1, p2, ?_, by simp [Ev.used, encEv], by simp [Ev.used, encEv]⟩
+    simp [encEv, Ev.req, hreq]
+  | mdHead hM hop hpend hlf hst hok =>
+    exact ⟨rfl, trivial, by simp [Ev.req], by simp [Ev.used], by simp [Ev.used]⟩
+  | mdDone hM hop hpend hlf hst hz =>
+    exact ⟨rfl, trivial, by simp [Ev.req], by simp [Ev.used], by simp [Ev.used]⟩
+  | mdOut hM hop hpend hlf hst hnz hao hle =>
+    have hlen : (io.input.take (mdOutN s io)).length = mdOutN s io := by rw [List.length_take]; omega
+    refine ⟨rfl, trivial, by simp [Ev.req, mdOutIo], ?_, by simp [Ev.used, hlen]; omega⟩
+    simp only [Ev.used, hlen]; rfl
+  | mdTiny hM hop hpend hlf hst hnz hao hle =>
+    have hlen : (io.input.take (mdTinyN s)).length = mdTinyN s := by rw [List.length_take]; omega
+    refine ⟨rfl, trivial, by simp [Ev.req, mdTinyIo], ?_, by simp [Ev.used, hlen]; omega⟩
+    simp only [Ev.used, hlen]; rfl
 
 end BV.Stream
